@@ -1,10 +1,13 @@
-import Zstd.Proofs.FrameDecoderBuf
+import Zstd.Proofs.FrameDecoderContract
 /-
 Helper lemmas about block decoding in the frame-decoder model: `read_exact`, literals length,
 `execute_sequences`, `decompress_block`, `decodeOneBlock`.
 -/
+set_option linter.unusedSectionVars false
 namespace Zstd.Model
 open Zstd
+
+variable {σ : Type} [BlockDec σ] [BlockContract σ]
 
 /-! ### `read_exact` -/
 
@@ -296,7 +299,7 @@ theorem parseBlockHeader_ok (b0 b1 b2 : Nat) (bh : BHeader) (h : parseBlockHeade
       · intro h; simp [h]
 
 /-- what one block does to the decoder state, whatever the outcome -/
-structure BlockStep (st st' : FState) : Prop where
+structure BlockStep (st st' : FState σ) : Prop where
   header : st'.header = st.header
   finished : st'.finished = st.finished
   checksum : st'.checksum = st.checksum
@@ -305,7 +308,7 @@ structure BlockStep (st st' : FState) : Prop where
   bytesRead_le : st.bytesRead ≤ st'.bytesRead
   blockCounter : st.blockCounter ≤ st'.blockCounter ∧ st'.blockCounter ≤ st.blockCounter + 1
 
-theorem decodeOneBlock_step (st : FState) (s : Src) : BlockStep st (decodeOneBlock st s).1 := by
+theorem decodeOneBlock_step (st : FState σ) (s : Src) : BlockStep st (decodeOneBlock st s).1 := by
   have hrefl : BlockStep st st :=
     ⟨rfl, rfl, rfl, rfl, ⟨#[], DBuf.Appends.refl _, Nat.zero_le _⟩, Nat.le_refl _, Nat.le_refl _, Nat.le_succ _⟩
   have hrefl3 : BlockStep st { st with bytesRead := st.bytesRead + 3 } :=
@@ -331,7 +334,7 @@ theorem decodeOneBlock_step (st : FState) (s : Src) : BlockStep st (decodeOneBlo
         · split
           · exact hrefl3
           · rename_i content s2 hr
-            have ha := decompressBlock_appends content st.entropy st.buf
+            have ha := BlockContract.appends content st.entropy st.buf
             split <;> rename_i heq <;> rw [heq] at ha <;>
               exact ⟨rfl, rfl, rfl, rfl, ha, by simp <;> omega, by simp⟩
 
@@ -343,7 +346,7 @@ def Out.mapOk {α β} (f : α → β) : Out α → Out β
   | .fault f => .fault f
 
 /-- `decode_block_content` given the complete block body (the bytes after the 3-byte header) -/
-def blockBody (st0 : FState) (bh : BHeader) (body : List Nat) : FState × Out Unit :=
+def blockBody (st0 : FState σ) (bh : BHeader) (body : List Nat) : FState σ × Out Unit :=
   let st := { st0 with bytesRead := st0.bytesRead + 3 }
   if bh.btype = 1 then
     ({ st with buf := { st.buf with content := st.buf.content ++ Array.replicate bh.decompressedSize (body.headD 0) },
@@ -352,7 +355,7 @@ def blockBody (st0 : FState) (bh : BHeader) (body : List Nat) : FState × Out Un
     ({ st with buf := { st.buf with content := st.buf.content ++ body.toArray },
                bytesRead := st.bytesRead + bh.decompressedSize, blockCounter := st.blockCounter + 1 }, .ok ())
   else
-    match decompressBlock body st.entropy st.buf with
+    match BlockDec.run body st.entropy st.buf with
     | ((buf, e), .ok ()) =>
       ({ st with buf := buf, entropy := e, bytesRead := st.bytesRead + bh.contentSize, blockCounter := st.blockCounter + 1 }, .ok ())
     | ((buf, e), .err er) => ({ st with buf := buf, entropy := e }, .err er)
@@ -360,7 +363,7 @@ def blockBody (st0 : FState) (bh : BHeader) (body : List Nat) : FState × Out Un
 
 /-- `decodeOneBlock` as a function of the source length, its first three bytes and the block body:
 the reads are exact (`3` bytes, then `contentSize` bytes), nothing else of the source is looked at. -/
-theorem decodeOneBlock_eq (st : FState) (s : Src) :
+theorem decodeOneBlock_eq (st : FState σ) (s : Src) :
     decodeOneBlock st s =
       if s.length < 3 then (st, .err .blockHeaderRead)
       else match parseBlockHeader (s.getD 0 0) (s.getD 1 0) (s.getD 2 0) with
@@ -440,7 +443,7 @@ theorem take_drop_take (s : List Nat) (k m n : Nat) (h : m + n ≤ k) :
     ((s.take k).drop m).take n = (s.drop m).take n := by
   rw [List.drop_take, List.take_take]; congr 1; omega
 
-theorem blockBody_ok (st st' : FState) (bh : BHeader) (body : List Nat)
+theorem blockBody_ok (st st' : FState σ) (bh : BHeader) (body : List Nat)
     (h1 : bh.btype = 1 → bh.contentSize = 1) (h0 : bh.btype = 0 → bh.contentSize = bh.decompressedSize)
     (h : blockBody st bh body = (st', .ok ())) :
     st'.bytesRead = st.bytesRead + (3 + bh.contentSize) ∧ st'.blockCounter = st.blockCounter + 1 := by
@@ -456,7 +459,7 @@ theorem blockBody_ok (st st' : FState) (bh : BHeader) (body : List Nat)
 
 /-- what a successful block did: consumed exactly `3 + contentSize` bytes from the front of the
 source (the rest is untouched), and the counters say so -/
-theorem decodeOneBlock_ok (st st' : FState) (s s1 : Src) (bh : BHeader)
+theorem decodeOneBlock_ok (st st' : FState σ) (s s1 : Src) (bh : BHeader)
     (h : decodeOneBlock st s = (st', .ok (bh, s1))) :
     3 + bh.contentSize ≤ s.length ∧ s1 = s.drop (3 + bh.contentSize) ∧
     parseBlockHeader (s.getD 0 0) (s.getD 1 0) (s.getD 2 0) = .ok bh ∧
@@ -485,7 +488,7 @@ theorem decodeOneBlock_ok (st st' : FState) (s s1 : Src) (bh : BHeader)
         exact ⟨by omega, rfl, rfl, hb, this.1, this.2⟩
 
 /-- truncated source, block fits in front of the cut: same result, rest truncated -/
-theorem decodeOneBlock_take_fits (st st' : FState) (s s1 : Src) (bh : BHeader) (k : Nat)
+theorem decodeOneBlock_take_fits (st st' : FState σ) (s s1 : Src) (bh : BHeader) (k : Nat)
     (h : decodeOneBlock st s = (st', .ok (bh, s1))) (hk : 3 + bh.contentSize ≤ k) :
     decodeOneBlock st (s.take k) = (st', .ok (bh, s1.take (k - (3 + bh.contentSize)))) := by
   obtain ⟨hlen, rfl, hp, hb, -, -⟩ := decodeOneBlock_ok _ _ _ _ _ h
@@ -497,7 +500,7 @@ theorem decodeOneBlock_take_fits (st st' : FState) (s s1 : Src) (bh : BHeader) (
 
 /-- truncated source, cut inside the block: `UnexpectedEof` on the header or the body read; nothing
 was decoded (only the header's 3 bytes are counted when the body read fails) -/
-theorem decodeOneBlock_take_cut (st st' : FState) (s s1 : Src) (bh : BHeader) (k : Nat)
+theorem decodeOneBlock_take_cut (st st' : FState σ) (s s1 : Src) (bh : BHeader) (k : Nat)
     (h : decodeOneBlock st s = (st', .ok (bh, s1))) (hk : k < 3 + bh.contentSize) :
     decodeOneBlock st (s.take k) =
       if k < 3 then (st, .err .blockHeaderRead)
